@@ -52,6 +52,28 @@ func readRules(c *Ctx) {
 	R.Rule("R02c", "E3", "encoding label = encoding delivered: Compressor_ZSTD / Content-Encoding: zstd is set exactly on the paths whose bytes came from Cache.GetZstd", 4)
 
 	if fi := c.P.MustFunc(R, "R02a", "server.(*grpcServer).Read"); fi != nil {
+		// locals by role: the request is the first parameter; the budget is the local assigned
+		// from its ReadLimit field; the switch is the bool local defined from ReadLimit != 0
+		reqName, limName, budgetName := "req", "limitedSend", "sendLimitRemaining"
+		if po := paramObj(fi, 0); po != nil {
+			reqName = po.Name()
+		}
+		ast.Inspect(fi.Decl.Body, func(n ast.Node) bool {
+			if as, ok := n.(*ast.AssignStmt); ok && len(as.Lhs) == 1 && len(as.Rhs) == 1 {
+				id, isID := as.Lhs[0].(*ast.Ident)
+				if !isID {
+					return true
+				}
+				r := strings.ReplaceAll(exprStr(as.Rhs[0]), " ", "")
+				if r == reqName+".ReadLimit" {
+					budgetName = id.Name
+				}
+				if strings.Contains(r, reqName+".ReadLimit!=0") {
+					limName = id.Name
+				}
+			}
+			return true
+		})
 		var base *Base
 		nsend := 0
 		base = NewBase(Hooks{
@@ -100,11 +122,11 @@ func readRules(c *Ctx) {
 				return []St{s}
 			},
 			EveryCall: func(x *Exec, call *ast.CallExpr, s St) []St {
-				if sel, ok := call.Fun.(*ast.SelectorExpr); ok && sel.Sel.Name == "Send" && exprStr(sel.X) == "resp" && inLoopStmt(x.Fn.Body, call) {
+				if sel, ok := call.Fun.(*ast.SelectorExpr); ok && sel.Sel.Name == "Send" && identObj(x.Fn.Info, sel.X) != nil && identObj(x.Fn.Info, sel.X) == paramObj(fi, 1) && inLoopStmt(x.Fn.Body, call) {
 					nsend++
 					lim := ""
 					for k, v := range s.m {
-						if strings.HasPrefix(k, "b:limitedSend@") {
+						if strings.HasPrefix(k, "b:"+limName+"@") {
 							lim = v
 						}
 					}
@@ -124,10 +146,10 @@ func readRules(c *Ctx) {
 		ast.Inspect(fi.Decl.Body, func(n ast.Node) bool {
 			if as, ok := n.(*ast.AssignStmt); ok && len(as.Lhs) == 1 {
 				l, r := exprStr(as.Lhs[0]), strings.ReplaceAll(exprStr(as.Rhs[0]), " ", "")
-				if l == "limitedSend" && r == "(req.ReadLimit!=0)&&cmp==casblob.Identity" {
+				if l == limName && strings.HasPrefix(r, "("+reqName+".ReadLimit!=0)&&") && strings.HasSuffix(r, "==casblob.Identity") {
 					okDef++
 				}
-				if l == "sendLimitRemaining" && r == "req.ReadLimit" {
+				if l == budgetName && r == reqName+".ReadLimit" {
 					okDef++
 				}
 			}
@@ -308,7 +330,7 @@ func readRules(c *Ctx) {
 				sites[k] = true
 				n = len(sites)
 				z := ""
-				if ct, ok := base.Term(x, identNamed(x, "cmp"), s); ok {
+				if ct, ok := base.Term(x, roleIdent(x, "cmp", "lhs:server.(*grpcServer).parseReadResource:2"), s); ok {
 					if v, known := relLookup(s, "#1", "==", ct); known { // casblob.Zstandard == 1
 						z = "F"
 						if v {
@@ -427,10 +449,27 @@ func depRules(c *Ctx) {
 			rest := strings.TrimPrefix(s, id.Name)
 			return "[" + resolve(rx) + "]" + rest
 		}
+		// name the root by its role (its type), not by what the code calls it
+		if t := info.TypeOf(id); t != nil {
+			ts := strings.TrimPrefix(t.String(), "*")
+			switch {
+			case strings.HasSuffix(ts, "execution/v2.ActionResult"):
+				return "result" + strings.TrimPrefix(s, id.Name)
+			case strings.HasSuffix(ts, "execution/v2.Tree"):
+				return "tree" + strings.TrimPrefix(s, id.Name)
+			}
+		}
 		return s
 	}
+	// the list that is handed to the presence check
+	var pendObj types.Object
 	for _, call := range callsIn(fi.Decl.Body, false) {
-		if fullCalleeName(info, call) == "builtin.append" && exprStr(call.Args[0]) == "pendingValidations" {
+		if calleeKey(info, call) == "disk.(*diskCache).findMissingCasBlobsInternal" && len(call.Args) == 3 {
+			pendObj = identObj(info, call.Args[1])
+		}
+	}
+	for _, call := range callsIn(fi.Decl.Body, false) {
+		if fullCalleeName(info, call) == "builtin.append" && pendObj != nil && identObj(info, call.Args[0]) == pendObj {
 			for _, a := range call.Args[1:] {
 				evidence[resolve(a)] = true
 			}
@@ -468,8 +507,18 @@ func depRules(c *Ctx) {
 	// inline-content files are exempt exactly when they carry contents
 	okInline := false
 	ast.Inspect(fi.Decl.Body, func(n ast.Node) bool {
-		if is, ok := n.(*ast.IfStmt); ok && strings.ReplaceAll(exprStr(is.Cond), " ", "") == "len(f.Contents)==0" {
-			okInline = true
+		if is, ok := n.(*ast.IfStmt); ok {
+			if be, ok := ast.Unparen(is.Cond).(*ast.BinaryExpr); ok && be.Op == token.EQL {
+				if k, isC := constInt(info, be.Y); isC && k == 0 {
+					if call, ok := ast.Unparen(be.X).(*ast.CallExpr); ok && exprStr(call.Fun) == "len" && len(call.Args) == 1 {
+						if sel, ok := ast.Unparen(call.Args[0]).(*ast.SelectorExpr); ok && sel.Sel.Name == "Contents" {
+							if rx, ok := rangeOf[identObj(info, sel.X)]; ok && strings.HasSuffix(exprStr(rx), ".OutputFiles") {
+								okInline = true
+							}
+						}
+					}
+				}
+			}
 		}
 		return true
 	})
@@ -481,8 +530,8 @@ func depRules(c *Ctx) {
 	base = NewBase(Hooks{
 		Call: func(x *Exec, call *ast.CallExpr, lhs []ast.Expr, s St) ([]St, bool) {
 			if calleeKey(x.Fn.Info, call) == "disk.(*diskCache).findMissingCasBlobsInternal" && len(lhs) == 1 && len(call.Args) == 3 {
-				good := exprStr(call.Args[1]) == "pendingValidations" && exprStr(call.Args[2]) == "true"
-				R.Check(good, "R06b", c.Cfg+"GetValidatedActionResult:check-args", c.P.Pos(call.Pos()), "the presence check runs over pendingValidations with failFast = true", "arguments are "+exprStr(call.Args[1])+", "+exprStr(call.Args[2]))
+				good := pendObj != nil && identObj(x.Fn.Info, call.Args[1]) == pendObj && exprStr(call.Args[2]) == "true"
+				R.Check(good, "R06b", c.Cfg+"GetValidatedActionResult:check-args", c.P.Pos(call.Pos()), "the presence check runs over the collected digests with failFast = true", "arguments are "+exprStr(call.Args[1])+", "+exprStr(call.Args[2]))
 				return base.ForkErr(x, lhs, 0, s, func(ok St) St { return ok.Set("checked", "1") }, nil), true
 			}
 			return errFork(base)(x, call, lhs, s)
